@@ -81,12 +81,16 @@ def gen_plan(rng, tier, index=0):
     for g in range(n_groups):
         r = rng.sub("group", g)
         kind = r.weighted([("FT", 2), ("FTSH", 2), ("VK", 3), ("KOL", 2)])
-        params = screens.gen_params(r, kind, small=True)
-        rows = 0 if kind in ("FT", "FTSH") else (r.randint(20, 60) if long_run and g == 0 else r.randint(0, 6))
+        params = screens.gen_params(r, kind, small=True, big=(tier == "thorough" and r.chance(0.1)))
+        rows = 0 if kind in ("FT", "FTSH") else (r.randint(20, 60 if tier != "thorough" else 300) if long_run and g == 0 else r.randint(0, 6))
         s1 = r.choice(SEED_POOL)
         a = len(actors)
-        actors.append({"kind": kind, "params": params, "seed": s1, "rows": rows, "twin_of": None, "group": g})
-        actors.append({"kind": kind, "params": params, "seed": s1, "rows": rows, "twin_of": a, "group": g})
+        scrib = r.chance(0.5)
+        actors.append({"kind": kind, "params": params, "seed": s1, "rows": rows, "twin_of": None, "group": g, "scribble": scrib})
+        actors.append({"kind": kind, "params": params, "seed": s1, "rows": rows, "twin_of": a, "group": g, "scribble": scrib})
+        if kind in ("FT", "FTSH") and r.chance(0.3):
+            # a third call with the same seed, later still
+            actors.append({"kind": kind, "params": params, "seed": s1, "rows": rows, "twin_of": a, "group": g, "scribble": scrib})
         if r.chance(0.6):
             s2 = r.choice([s for s in SEED_POOL if _seed_key(s) != _seed_key(s1)] + [r.randrange(2 ** 31)])
             if _seed_key(s2) != _seed_key(s1):
@@ -136,6 +140,7 @@ class _Actor(object):
                 seed = screens.make_seed(sp["seed"])
                 if kind in ("FT", "FTSH"):
                     out = screens.call_finite(kind, sp["params"], seed)
+                    self.result = out
                 else:
                     self.obj = screens.construct_infinite(kind, sp["params"], seed)
                     out = self.obj.scrn
@@ -146,6 +151,15 @@ class _Actor(object):
                     return self.trace[-1]
                 out = self.obj.add_row()
             e = ("ok", core.hbytes(repr(screens.abytes(out)[:2]).encode() + screens.abytes(out)[2]))
+            if sp.get("scribble") and kind in ("FT", "FTSH"):
+                # the returned screen belongs to the caller, who converts it in place (radians -> nanometres, as the
+                # docstring suggests) - a later call with the same seed must not see that
+                try:
+                    out *= 79.6
+                    out[0, 0] = 12345.0
+                    self.scribbled = True
+                except Exception:
+                    pass
         except Exception as ex:
             e = ("raised", type(ex).__name__)
             if self.pc == 0:
@@ -211,6 +225,8 @@ def execute(plan, keep_log=False):
             after = seams.ambient_digest()
             res.steps += 1
             res.count("op.%s" % ("construct" if a.pc == 1 else "add_row"))
+            if getattr(a, "scribbled", False) and a.pc == 1:
+                res.count("fault.caller_modified_returned_screen_in_place")
             log.add(si, "op", i, a.pc - 1, e)
             if before != after:
                 res.violate("ambient", "C06:screen-op-changed-global-rng:%s" % specs[i]["kind"],
